@@ -636,7 +636,10 @@ Fixpoint field_names (f : fld) : pyval :=
    XRead : to_tree / dumps / asdict / validate / get_all_fields -- observers, no heap change. *)
 Inductive xevent :=
 | XE (e : event)
-| XCross (i j : nat) (p : list sel) (k : str)
+| XCross (i j : nat) (p : list sel) (k : str) (ps : list sel) (ks : str)
+      (* cfg_i<p>.k = cfg_j<ps>.ks : a value read from another configuration / another field is assigned *)
+| XUpdate (i j : nat) (p : list sel) (k : str)
+      (* cfg_i<p>.k.update(cfg_j<p>.k)  (also |=) between the dict proxies of one field in two configurations *)
 | XClone (i j : nat) (p : list sel)     (* cfg_j<p>.load_tree(cfg_i<p>.to_tree())  (also through dumps/loads) *)
 | XRead.
 
@@ -697,10 +700,38 @@ Definition xstep (deep : bool) (d : nat) (sigma : fld) (w : world) (x : xevent) 
           end
       | _, _ => w
       end
-  | XCross i j p k =>
+  | XUpdate i j p k =>
       match nth_error (wroots w) i, nth_error (wroots w) j with
       | Some ri, Some rj =>
           match nav (wh w) (VRef rj) (p ++ [SAttr k]) with
+          | Some v =>
+              match copy_val d (wh w) v with
+              | Some (h1, VRef cl) =>
+                  match lookup h1 cl, nav h1 (VRef ri) (p ++ [SAttr k]) with
+                  | Some (ODict _ es), Some (VRef dl) =>
+                      match lookup h1 dl with
+                      | Some (ODict vf es0) =>
+                          (* every value is validated by the value field of the receiving proxy, then stored *)
+                          match maph (lift_snd (fun h x => item_val deep d vf h x)) h1 es with
+                          | Some (h2, es') =>
+                              {| wh := upd h2 dl (ODict vf (fold_left (fun acc kv => assoc_set pyval_eqb (fst kv) (snd kv) acc) es' es0));
+                                 wroots := wroots w |}
+                          | None => w
+                          end
+                      | _ => w
+                      end
+                  | _, _ => w
+                  end
+              | _ => w
+              end
+          | None => w
+          end
+      | _, _ => w
+      end
+  | XCross i j p k ps ks =>
+      match nth_error (wroots w) i, nth_error (wroots w) j with
+      | Some ri, Some rj =>
+          match nav (wh w) (VRef rj) (ps ++ [SAttr ks]) with
           | Some v =>
               match copy_val d (wh w) v with
               | Some (h1, v1) =>
